@@ -1047,7 +1047,14 @@ func (b *Builder) objAt(v ssa.Value, at ssa.Instruction, depth int) *Term {
 	}
 	// new(big.Int).SetUint64(uint64(n)) / .SetInt64(int64(n)) for a length n is big.NewInt(int64(n))
 	if base.Op == "alloc" && base.Name == "math/big.Int" && h[0].Op == "call" && (h[0].Name == "(*math/big.Int).SetUint64" || h[0].Name == "(*math/big.Int).SetInt64") && len(h[0].Args) == 2 && h[0].Args[0].Op == "self" {
-		if a := h[0].Args[1]; a.Op == "conv" && len(a.Args) == 1 && (a.Name == "uint64" || a.Name == "int64") && lengthLike(a.Args[0]) {
+		if c0, isC := isConstInt(h[0].Args[1]); isC && c0.Sign() >= 0 && c0.IsInt64() {
+			// new(big.Int).SetInt64(c) is big.NewInt(c)
+			base = &Term{Op: "call", Name: "math/big.NewInt", V: base.V, Args: []*Term{h[0].Args[1]}}
+			h = h[1:]
+			if len(h) == 0 {
+				return base
+			}
+		} else if a := h[0].Args[1]; a.Op == "conv" && len(a.Args) == 1 && (a.Name == "uint64" || a.Name == "int64") && lengthLike(a.Args[0]) {
 			conv := a
 			if a.Name == "uint64" {
 				conv = &Term{Op: "conv", Name: "int64", V: a.V, Args: a.Args}
